@@ -37,5 +37,5 @@ for s in seeds:
     finally:
         subprocess.run(["git", "-C", "/repo", "checkout", "--", "."], check=True)
     out[s] = {"applies": True, "demo_rc_patched": demo, "caught_by": caught}
-    print(s, "demo", demo, "caught_by", caught, flush=True)
+    print(s, "demo", demo, "caught_by", caught, "" if demo == 1 else "   <-- the demo no longer fails on the patched tree: does the seed still violate its property?", flush=True)
 json.dump(out, open("/verif/seeded/last_run.json", "w"), indent=1)
